@@ -24,6 +24,9 @@ var Corpus = [][]string{
 	// position) the next listing through it shows the server's list, nothing of the old one
 	{"c create p1 127.0.0.1:$A u:1", `c add p1 t1 latency upstream - {"latency":100,"jitter":5}`, "h fetch h1 p1", "ht h1", "c rm p1 t1",
 		`c add p1 t2 timeout upstream - {"timeout":500}`, "ht h1", `c add p1 t3 limit_data downstream - {"bytes":100}`, "c rm p1 t2", "ht h1"},
+	// Client.Populate: entries as the caller holds them (enabled false included), twice, then a differing one
+	{"c populate p1 127.0.0.1:$A u:1 1 p2 127.0.0.1:$B u:2 0", "c populate p1 127.0.0.1:$A u:1 1 p2 127.0.0.1:$B u:2 0", "c proxies",
+		"c populate p1 127.0.0.1:$A u:2 0", "c get p1", "c populate p3 noport u:1 1", "c proxies"},
 	// C19 (fixed): `toxiproxy-cli toxic update` without --toxicity must keep the toxic's toxicity
 	{"c create p1 127.0.0.1:$A u:1", `c add p1 t1 latency downstream 0.3 {"latency":5}`, `cli tupd p1 t1 - {"jitter":7}`, "c toxics p1"},
 }
@@ -75,6 +78,14 @@ func Episode(r *rng.R) []string {
 			if r.Chance(1, 2) {
 				ops = append(ops, "ht "+h)
 			}
+			continue
+		}
+		if r.Chance(1, 12) {
+			op := "c populate"
+			for k := 0; k < 1+r.Intn(2); k++ {
+				op += fmt.Sprintf(" %s %s %s %d", pn(), listen(), pick(r, "u:1", "u:2"), r.Intn(2))
+			}
+			ops = append(ops, op)
 			continue
 		}
 		switch x := r.Intn(24); {
